@@ -24,6 +24,7 @@ structure D where
   states : List St := []
   frozen : Bool := false
   dead : Bool := true
+  heap : Heap.H Int Unit := #[]
 
 /-- Unobservable labels (everything internal that the harness does not log). -/
 def hiddenLabels (frozen : Bool) : List Lb :=
@@ -161,12 +162,43 @@ def freezes (cfg : Cfg) (l : Line) : Bool :=
   | some _ => true
   | none => false
 
+def dumpHeap (h : Heap.H Int Unit) : String :=
+  "arr=" ++ ",".intercalate (h.toList.map fun e => s!"{e.value.id}:{e.index}")
+
+def showOpt (o : Option (Item Int Unit)) : String :=
+  match o with
+  | some r => toString r.id
+  | none => "none"
+
+/-- Operations on the heap layer of `KitModel/Queue.lean` (differential test against queue.go). -/
+def handleHeap (d : D) (l : Line) : D × String :=
+  match l.op with
+  | "h.reset" => ({ d with heap := #[] }, "ok")
+  | "h.ins" =>
+    match l.int? "key", l.int? "at", l.nat? "id" with
+    | some k, some t, some id =>
+      let h := Heap.insert d.heap ⟨k, t, (), id⟩
+      ({ d with heap := h }, dumpHeap h)
+    | _, _, _ => (d, "REJECT malformed")
+  | "h.pop" =>
+    let r := Heap.pop d.heap
+    ({ d with heap := r.2 }, s!"pop={showOpt r.1} {dumpHeap r.2}")
+  | "h.peek" => (d, s!"peek={showOpt (Heap.peek d.heap)} {dumpHeap d.heap}")
+  | "h.rm" =>
+    match l.int? "key" with
+    | some k =>
+      let h := Heap.remove d.heap k
+      ({ d with heap := h }, dumpHeap h)
+    | none => (d, "REJECT malformed")
+  | _ => (d, "REJECT unknown heap op")
+
 def handle (d : D) (raw : String) : D × String :=
   let l := parseLine raw
+  if l.op.startsWith "h." then handleHeap d l else
   if l.op == "reset" then
     let cfg : Cfg := ⟨l.nat? "fixed" != some 0⟩
     let ss := closure cfg false [init]
-    ({ cfg := cfg, states := ss, frozen := false, dead := false }, s!"ok {ss.length}")
+    ({ d with cfg := cfg, states := ss, frozen := false, dead := false }, s!"ok {ss.length}")
   else if d.dead then (d, "dead")
   else
     let rs := d.states.map (onEvent d.cfg l)
